@@ -102,7 +102,20 @@ func (g *G) scalar(kind string, inObject bool) *Schema {
 		}
 	case "float":
 		s.Lit = pick(r, []string{"1.5", "0.25", "12.50", "3.0", "100.125", "-2.5"})
+		if chance(r, 1, 6) {
+			// a decimal with its precision (the catalog types the node "decimal")
+			s.Lit = pick(r, []string{"1.1", "12.50", "0.25"})
+			s.Rules = append(s.Rules, Rule{"type", `"decimal"`, "string", "decimal"}, Rule{"precision", "2", "number", "2"})
+		}
 	case "str":
+		if chance(r, 1, 7) {
+			// a string of one of the schema language's built-in formats
+			f := pick(r, [][2]string{{"email", "tom@pets.com"}, {"uri", "http://pets.com/p/1"}, {"date", "2021-01-15"},
+				{"datetime", "2021-01-16T12:00:00+03:00"}, {"uuid", "550e8400-e29b-41d4-a716-446655440000"}})
+			s.Str, s.Lit = f[1], lit(f[1])
+			s.Rules = append(s.Rules, Rule{"type", lit(f[0]), "string", f[0]})
+			break
+		}
 		s.Str = pick(r, []string{"abc", "Tom", "hello world", "", "x", "CAT-1", "a b  c", "ümlaut", "q'uote"})
 		s.Lit = lit(s.Str)
 		if s.Str == "ümlaut" {
@@ -120,11 +133,16 @@ func (g *G) scalar(kind string, inObject bool) *Schema {
 		}
 	case "bool":
 		s.Lit = pick(r, []string{"true", "false"})
+		if chance(r, 1, 6) {
+			s.Rules = append(s.Rules, Rule{"const", pick(r, []string{"true", "false"}), "boolean", ""})
+		}
 	case "null":
 		s.Lit = "null"
 	}
 	for i := range s.Rules {
-		s.Rules[i].SVal = s.Rules[i].Val
+		if s.Rules[i].SVal == "" {
+			s.Rules[i].SVal = s.Rules[i].Val
+		}
 	}
 	return s
 }
@@ -311,6 +329,21 @@ func (g *G) genPathSchema(path string) *Schema {
 					}
 				}
 				s = &Schema{Kind: kind, Lit: v.Lit, Str: v.SVal, Rules: []Rule{{"enum", e.Name, "reference", e.Name}}}
+			}
+		}
+		if chance(r, 1, 5) {
+			// a path variable typed by a user type whose value is a scalar
+			var cands []*Type
+			for _, t := range g.types {
+				if t.Notation == "jsight" && t.Schema != nil {
+					switch t.Schema.Kind {
+					case "int", "str", "float":
+						cands = append(cands, t)
+					}
+				}
+			}
+			if len(cands) > 0 {
+				s = &Schema{Kind: "ref", Ref: pick(r, cands).Name}
 			}
 		}
 		if chance(r, 1, 3) {
